@@ -618,6 +618,73 @@ def _run_pumps(case, ctx):
     ctx.label('gain:' + ('<1dB' if max(gains) < 1 else '1-5dB' if max(gains) < 5 else '>5dB'))
 
 
+
+# ------------------------------------------------------------------------------------------------ designed paths
+
+def _designed_cases():
+    from pbt.props import _paths
+    def analytic(case):
+        # the NLI method is irrelevant for CD / PMD / latency; the single-channel ggn_approx crash is recorded under C01/C02
+        case['sim']['nli_params'].update(method='gn_model_analytic', computed_channels=None)
+        return case
+    return _paths.path_case(n=(2, 3), max_ch=8).map(analytic)
+
+def run_designed_path(case, ctx):
+    """CD, latency and fibre PMD reported at the receiver of a real propagation through an auto-designed network equal the
+    sums over the fibres *as the user wrote them* (auto-design may split them and add amplifiers, never length)."""
+    import numpy as np
+    from pbt.props import _paths
+    p = _paths.prepare(case, ctx)
+    if p is None:
+        return
+    if p.error is not None:
+        ctx.label('skipped:no-channel-in-band')
+        return
+    el_json = {e['uid']: e for e in case['topo']['elements']}
+    lib_f = {f['type_variety']: f for f in case['eq']['Fiber']}
+    lib_a = {a['type_variety']: a for a in case['eq']['Edfa']}
+    from gnpy.core import elements
+    # user fibres crossed by the path: pieces of a split fibre are named <uid>_(k/n)
+    crossed, split = {}, False
+    for el in p.path:
+        if isinstance(el, elements.Fiber):
+            base = el.uid.split('_(')[0]
+            split |= base != el.uid
+            crossed[base] = el_json[base]
+    if not crossed:
+        ctx.label('skipped:no-fibre')
+        return
+    lat = cd = pmd2 = 0.0
+    cd_known = True
+    for uid, e in crossed.items():
+        L = e['params']['length'] * 1e3
+        ft = lib_f[e['type_variety']]
+        lat += L * N1 / C
+        pmd2 += e['params'].get('pmd_coef', ft['pmd_coef']) ** 2 * L
+        if 'dispersion_slope' in ft or 'dispersion_slope' in e['params'] or 'dispersion_per_frequency' in ft:
+            cd_known = False
+        else:
+            cd += e['params'].get('dispersion', ft['dispersion']) * L
+    rx = p.path[-1]
+    got_lat = np.asarray(rx.latency, dtype=float) * np.ones(1)
+    if np.max(np.abs(got_lat * 1e-3 - lat)) > 1e-9 * lat:        # Transceiver reports latency in ms
+        ctx.violation('latency-not-sum-over-user-fibres',
+                      f'{got_lat[:2] * 1e-3} s, fibres {sorted(crossed)} give {lat!r} s (split: {split})')
+        return
+    if cd_known:
+        got_cd = np.asarray(rx.chromatic_dispersion, dtype=float)
+        if np.max(np.abs(got_cd * 1e-3 - cd)) > 1e-9 * max(abs(cd), 1e-12):     # ps/nm -> s/m
+            ctx.violation('cd-not-sum-over-user-fibres', f'{got_cd[:2] * 1e-3} vs {cd!r}')
+            return
+    # PMD: fibres in quadrature plus what ROADMs and amplifiers add; at least the fibre part, at most fibre + elements
+    got_pmd = np.asarray(rx.pmd, dtype=float) * 1e-12
+    if np.min(got_pmd) < (pmd2 ** 0.5) * (1 - 1e-9):
+        ctx.violation('pmd-below-fibre-contribution', f'{got_pmd[:2]} < {pmd2 ** 0.5!r}')
+        return
+    ctx.label('split:yes' if split else 'split:no', f'fibres:{min(len(crossed), 4)}', 'cd:judged' if cd_known else 'cd:slope-not-judged')
+    ctx.nontrivial(split or len(crossed) >= 2)
+
+
 CHECKS = [
     Check('spans', span_cases(), run_spans, quick=1500, thorough=48000,
           doc='Raman off: per-fibre loss budget, CD/latency sums, PMD/PDL quadrature incl. ROADM and amplifier, span order'),
@@ -625,6 +692,8 @@ CHECKS = [
           doc='Raman on, no pumps: low-power limit per method, inserted lumped loss, perturbative vs numerical'),
     Check('pumps', pump_cases(), run_pumps, quick=60, thorough=1600,
           doc='Raman on: pumps above the channels only add gain'),
+    Check('designed-path', _designed_cases(), run_designed_path, quick=200, thorough=6000,
+          doc='receiver CD / latency / PMD of a real propagation through an auto-designed network vs sums over the user fibres'),
 ]
 
 FLOORS = {
